@@ -22,6 +22,9 @@ pub enum Case {
     Compound { op: BinOp, a: usize, b: usize },
     IncDec { inc: bool, amount: u32, a: usize },
     Truth { a: usize },
+    /// a value compared with itself: through the same variable, an unmodified copy, a separately built twin,
+    /// as an element of itself-free arrays, and with a copy that was written to and restored
+    SelfCmp { a: usize },
     Nested { prog: Program, stdin: String },
 }
 
@@ -80,6 +83,29 @@ pub fn program_of(c: &Case) -> (Program, String) {
             s.push(Stmt::If { cond: var(&va()), then: vec![say(strlit("T"))], els: Some(vec![say(strlit("F"))]) });
             s.push(say(un(UnOp::Not, var(&va()))));
             s.push(Stmt::Until { cond: var(&va()), body: vec![say(strlit("once")), Stmt::Break] });
+            (Program::single(s), String::new())
+        }
+        Case::SelfCmp { a } => {
+            let (x, y, z) = (va(), vb(), simple("vc"));
+            let mut s = uni()[*a].stmts(&x, &scratch());
+            s.push(Stmt::Assign { dest: Lhs::Ident(Ident::Name(y.clone())), value: vec![var(&x)], op: None });
+            s.extend(uni()[*a].stmts(&z, &scratch()));
+            let pairs = [(&x, &x), (&x, &y), (&y, &x), (&x, &z)];
+            for (l, r) in pairs {
+                s.push(say(bin(BinOp::Eq, var(l), var(r))));
+                s.push(say(bin(BinOp::NotEq, var(l), var(r))));
+            }
+            // holders of the value: [x, x] against [x, y]
+            let (h1, h2) = (simple("hone"), simple("htwo"));
+            s.push(Stmt::Push { array: pvar(&h1), value: Some(PushRhs::List(vec![var(&x), var(&x)])) });
+            s.push(Stmt::Push { array: pvar(&h2), value: Some(PushRhs::List(vec![var(&x), var(&y)])) });
+            s.push(say(bin(BinOp::Eq, var(&h1), var(&h2))));
+            s.push(say(bin(BinOp::Eq, var(&h1), var(&h1))));
+            // orderings last: they are runtime errors for some kinds
+            for (l, r) in pairs {
+                s.push(say(bin(BinOp::LessEq, var(l), var(r))));
+                s.push(say(bin(BinOp::Greater, var(l), var(r))));
+            }
             (Program::single(s), String::new())
         }
         Case::Nested { prog, stdin } => (prog.clone(), stdin.clone()),
@@ -221,6 +247,9 @@ impl Prop for C03 {
         for a in 0..n {
             v.push(Case::Truth { a });
         }
+        for a in 0..n {
+            v.push(Case::SelfCmp { a });
+        }
         (v, true)
     }
     fn check(&self, c: &Case) -> Outcome {
@@ -248,6 +277,10 @@ impl Prop for C03 {
                     }
                     Case::Truth { a } => {
                         labels.push(format!("truth:{}", kind_name(uni()[*a].value().kind())));
+                        o.nontrivial = true;
+                    }
+                    Case::SelfCmp { a } => {
+                        labels.push(format!("self_comparison:{}", kind_name(uni()[*a].value().kind())));
                         o.nontrivial = true;
                     }
                     Case::Nested { prog, .. } => {
@@ -279,6 +312,7 @@ impl Prop for C03 {
             Case::Unary { op, a } => format!("{:?} {}", op, uni()[*a].label),
             Case::IncDec { inc, amount, a } => format!("{} {} by {}", if *inc { "build" } else { "knock" }, uni()[*a].label, amount),
             Case::Truth { a } => format!("truthiness of {}", uni()[*a].label),
+            Case::SelfCmp { a } => format!("{} compared with itself, a copy and a twin", uni()[*a].label),
             Case::Nested { .. } => "nested".into(),
         };
         json!({ "what": label, "src": render_canonical(&prog), "stdin": stdin })
